@@ -1,6 +1,7 @@
 import CoapVerif.Lemmas.LinkFormat
 import CoapVerif.Lemmas.WkBlock
 import CoapVerif.Lemmas.WkLive
+import CoapVerif.Lemmas.WkEtag
 import CoapVerif.Props.C16
 /-
 C20 — `/.well-known/core` lists exactly the registered resources in any window / filter.
@@ -408,5 +409,190 @@ example : matchSpec true true [0x61, 0x62, 0x20, 0x63] [0x61, 0x62, 0x20, 0x63, 
     ([0x61, 0x62, 0x20, 0x63, 0x64].take 4 == [0x61, 0x62, 0x20, 0x63]) = true := by decide
 /-- a value consisting of one `"`: `length - 2` wrapped to SIZE_MAX before the fix; now it is taken as it is -/
 example : unquote [0x22] = [0x22] ∧ (1 + 2 ^ 64 - 2) % 2 ^ 64 = 2 ^ 64 - 1 := by decide
+
+/-! ### table changes WHILE block-wise transfers are under way: one ETag, one listing
+
+`runB` (Model/WkLive.lean): any sequence of events {GET block k (any SZX, Uri-Query options, Request-Tag, session), table
+operation, lg_xmit timeout of any subset of a session's entries}; the trace is the list of exchanges, each with the table
+as it was at that moment. -/
+
+/-- the requests of a trace are requests a client can send (option values ≤ 65535 bytes) and no listing asked for exceeds
+the printer's 28-bit length -/
+def OkB (tr : List Obs) : Prop :=
+  ∀ o ∈ tr, C16.Small o.req.opts ∧ (getListing o.table o.req.opts).length ≤ STATUS_MAX
+
+theorem okObs_of_okB {tr : List Obs} (h : OkB tr) : ∀ o ∈ tr, OkObs o := by
+  intro o ho
+  refine ⟨⟨_, C16.get_query_eq_spec o.req.opts (h o ho).1⟩, ?_⟩
+  obtain ⟨body, hb, he, _⟩ := get_reassembles o.table o.req.opts (h o ho).2 1 (by omega)
+  rw [hb, he]
+
+/-- **the cache key determines the listing**: requests whose `coap_get_query()` strings compare equal ask for the same
+listing of any table (C16 `query_injective`) -/
+theorem same_key_same_listing (t : Table) (a b : List Bytes) (ha : C16.Small a) (hb : C16.Small b)
+    (hk : SameKey a b) : getListing t a = getListing t b := by
+  obtain ⟨k1, k2, h1, h2, hk⟩ := hk
+  have K := keyed_of_small [] [⟨0, a⟩, ⟨0, b⟩] (by
+    intro xf hx
+    simp only [List.mem_cons, List.not_mem_nil, or_false] at hx
+    have hl : ∀ o, (getListing [] o).length ≤ STATUS_MAX := by
+      intro o; simp [getListing, listing, selected, joinComma, STATUS_MAX]
+    rcases hx with hx | hx <;> subst hx <;> exact ⟨by assumption, hl _⟩)
+  have e1 := C16.get_query_eq_spec a ha
+  have e2 := C16.get_query_eq_spec b hb
+  have hq : MU.getQuery a = MU.getQuery b := by
+    rw [e1] at h1; rw [e2] at h2
+    have h1 := R.ok.inj h1; have h2 := R.ok.inj h2
+    rw [e1, e2]
+    have : Spec.Uri.composeQuery a = Spec.Uri.composeQuery b := by
+      subst h1; subst h2
+      simp only [keyEq, beq_iff_eq] at hk
+      by_cases ha : Spec.Uri.composeQuery a = [] <;> by_cases hb : Spec.Uri.composeQuery b = [] <;>
+        simp [ha, hb] at hk ⊢ <;> first | exact hk | exact hk.symm | (rw [hk]) | skip
+    rw [this]
+  have hn := C16.query_injective a b ha hb hq
+  unfold getListing
+  have : a.head?.getD [] = b.head?.getD [] := by
+    unfold Spec.Uri.norm at hn
+    by_cases ha : a = [[]] <;> by_cases hb : b = [[]] <;> simp [ha, hb] at hn ⊢ <;> simp [hn]
+  rw [this]
+
+theorem invB_init (t : Table) (e0 : Nat) : InvB (BState.init t e0) [] :=
+  ⟨by intro sid e he; simp [BState.init] at he, by simp [issued], by intro E hE; simp [issued] at hE⟩
+
+/-- two block-0 exchanges of a trace that carry the same ETag are the same exchange -/
+theorem issued_inj (tr : List Obs) (hn : (issued tr).Nodup) (a b : Obs) (ha : a ∈ tr) (hb : b ∈ tr) (E : Nat)
+    (ha0 : a.req.num = 0) (hb0 : b.req.num = 0) (hae : etagOf a.resp = some E) (hbe : etagOf b.resp = some E) :
+    a = b := by
+  have hmem : ∀ (l : List Obs) (x : Obs), x ∈ l → x.req.num = 0 → etagOf x.resp = some E → E ∈ issued l := by
+    intro l x hx h0 he
+    simp only [issued, List.mem_filterMap]
+    exact ⟨x, hx, by simp [h0, he]⟩
+  induction tr with
+  | nil => simp at ha
+  | cons x xs ih =>
+    have hcons : issued (x :: xs) = issued [x] ++ issued xs := issued_append [x] xs
+    rw [hcons] at hn
+    have hnx := (List.nodup_append.mp hn)
+    simp only [List.mem_cons] at ha hb
+    rcases ha with ha | ha <;> rcases hb with hb | hb
+    · rw [ha, hb]
+    · subst ha
+      exact absurd rfl (hnx.2.2 E (hmem [a] a (by simp) ha0 hae) E (hmem xs b hb hb0 hbe))
+    · subst hb
+      exact absurd rfl (hnx.2.2 E (hmem [b] b (by simp) hb0 hbe) E (hmem xs a ha ha0 hae))
+    · exact ih hnx.2.1 ha hb
+
+/-- (restart) whatever happened before — transfers under way, table changes, timeouts —, a request for block 0 is
+answered from the table AS IT IS NOW: first block of the current listing, M bit and a (new) ETag exactly when more follows -/
+theorem restart_gets_current_listing (t : Table) (e0 : Nat) (evs : List BEv)
+    (hok : OkB (runB (BState.init t e0) evs)) (hw : e0 + evs.length < 2 ^ 64) :
+    ∀ o ∈ runB (BState.init t e0) evs, o.req.num = 0 →
+      o.resp = RespB.blk ((getListing o.table o.req.opts).take (2 ^ (o.req.szx + 4)))
+                 (decide (2 ^ (o.req.szx + 4) < (getListing o.table o.req.opts).length)) (etagOf o.resp) ∧
+      (etagOf o.resp).isSome = decide (2 ^ (o.req.szx + 4) < (getListing o.table o.req.opts).length) := by
+  intro o ho h0
+  have h := (runB_good evs (BState.init t e0) [] (invB_init t e0) (okObs_of_okB hok) hw).1 o ho
+  exact h.1 h0
+
+/-- the context never hands out the same ETag with two block 0s (fewer than 2^64 bodies) -/
+theorem etags_never_reused (t : Table) (e0 : Nat) (evs : List BEv)
+    (hok : OkB (runB (BState.init t e0) evs)) (hw : e0 + evs.length < 2 ^ 64) :
+    (issued (runB (BState.init t e0) evs)).Nodup := by
+  simpa using (runB_good evs (BState.init t e0) [] (invB_init t e0) (okObs_of_okB hok) hw).2
+
+/-- every response that carries ETag `E` is block `num` of the listing — for the request's OWN Uri-Query options — of the table
+as it was when the block 0 carrying `E` was served to the same session (same Request-Tag, same block size): never a block of
+another client's body, never of a later or earlier table -/
+theorem block_under_etag_is_block_of_block0_listing (t : Table) (e0 : Nat) (evs : List BEv)
+    (hok : OkB (runB (BState.init t e0) evs)) (hw : e0 + evs.length < 2 ^ 64) :
+    ∀ o ∈ runB (BState.init t e0) evs, ∀ p more E, o.resp = RespB.blk p more (some E) →
+      ∃ o0 ∈ runB (BState.init t e0) evs, o0.req.num = 0 ∧ etagOf o0.resp = some E ∧
+        o0.req.sid = o.req.sid ∧ o0.req.rtag = o.req.rtag ∧ o0.req.szx = o.req.szx ∧
+        getListing o0.table o0.req.opts = getListing o0.table o.req.opts ∧
+        p = block (getListing o0.table o.req.opts) (2 ^ (o.req.szx + 4)) o.req.num ∧
+        more = decide (o.req.num * 2 ^ (o.req.szx + 4) + 2 ^ (o.req.szx + 4) <
+                         (getListing o0.table o.req.opts).length) := by
+  intro o ho p more E he
+  have h := (runB_good evs (BState.init t e0) [] (invB_init t e0) (okObs_of_okB hok) hw).1 o ho
+  obtain ⟨o0, h0, a1, a2, a3, a4, a5, a6, a7, a8⟩ := h.2 p more E he
+  simp only [List.nil_append] at h0
+  have hl := same_key_same_listing o0.table o0.req.opts o.req.opts (hok o0 h0).1 (hok o ho).1 a5
+  exact ⟨o0, h0, a1, a6, a2, a3, a4, hl, by rw [← hl]; exact a7, by rw [← hl]; exact a8⟩
+
+/-- (one ETag, one listing) all responses of a run that carry the same ETag are blocks of ONE body: the listing of the table as
+it was when the — unique — block 0 with that ETag was served; a table change never yields a mixture of two listings under one
+ETag, and two clients never share an ETag unless they are the same session asking with the same key -/
+theorem blocks_of_one_etag_are_one_listing (t : Table) (e0 : Nat) (evs : List BEv)
+    (hok : OkB (runB (BState.init t e0) evs)) (hw : e0 + evs.length < 2 ^ 64)
+    (o o' : Obs) (ho : o ∈ runB (BState.init t e0) evs) (ho' : o' ∈ runB (BState.init t e0) evs)
+    (p p' : Bytes) (m m' : Bool) (E : Nat)
+    (he : o.resp = RespB.blk p m (some E)) (he' : o'.resp = RespB.blk p' m' (some E)) :
+    ∃ o0 ∈ runB (BState.init t e0) evs, o0.req.num = 0 ∧ etagOf o0.resp = some E ∧
+      o.req.sid = o0.req.sid ∧ o'.req.sid = o0.req.sid ∧
+      getListing o0.table o.req.opts = getListing o0.table o0.req.opts ∧
+      getListing o0.table o'.req.opts = getListing o0.table o0.req.opts ∧
+      p = block (getListing o0.table o0.req.opts) (2 ^ (o0.req.szx + 4)) o.req.num ∧
+      p' = block (getListing o0.table o0.req.opts) (2 ^ (o0.req.szx + 4)) o'.req.num := by
+  obtain ⟨o0, h0, a1, a2, a3, _, a5, a6, a7, _⟩ :=
+    block_under_etag_is_block_of_block0_listing t e0 evs hok hw o ho p m E he
+  obtain ⟨o0', h0', b1, b2, b3, _, b5, b6, b7, _⟩ :=
+    block_under_etag_is_block_of_block0_listing t e0 evs hok hw o' ho' p' m' E he'
+  have heq : o0' = o0 := issued_inj _ (etags_never_reused t e0 evs hok hw) o0' o0 h0' h0 E b1 a1 b2 a2
+  subst heq
+  exact ⟨o0', h0, a1, a2, a3.symm, b3.symm, a6.symm, b6.symm, by rw [a6, a5]; exact a7, by rw [b6, b5]; exact b7⟩
+
+def payloadOf : RespB → Bytes
+  | .blk p _ _ => p
+  | .err _ => []
+
+/-- (reassembly) a client that has collected, in any order and with anything in between, the responses to its requests for
+blocks `0 … n-1` under ONE ETag, `n` the block count of the listing at its block 0, has exactly that listing -/
+theorem etag_blocks_reassemble (t : Table) (e0 : Nat) (evs : List BEv)
+    (hok : OkB (runB (BState.init t e0) evs)) (hw : e0 + evs.length < 2 ^ 64)
+    (f : Nat → Obs) (E n : Nat) (hn : 0 < n)
+    (hf : ∀ i, i < n → f i ∈ runB (BState.init t e0) evs ∧ (f i).req.num = i ∧
+      ∃ p m, (f i).resp = RespB.blk p m (some E))
+    (hnb : n = nblocks (getListing (f 0).table (f 0).req.opts).length (2 ^ ((f 0).req.szx + 4))) :
+    (List.range n).flatMap (fun i => payloadOf (f i).resp) = getListing (f 0).table (f 0).req.opts := by
+  obtain ⟨h0m, h0n, p0, m0, h0r⟩ := hf 0 hn
+  have hcong : ∀ i ∈ List.range n, payloadOf (f i).resp =
+      block (getListing (f 0).table (f 0).req.opts) (2 ^ ((f 0).req.szx + 4)) i := by
+    intro i hi
+    obtain ⟨him, hin, p, m, hir⟩ := hf i (List.mem_range.mp hi)
+    obtain ⟨o0, h0, a1, a2, _, _, _, _, _, a8⟩ :=
+      blocks_of_one_etag_are_one_listing t e0 evs hok hw (f 0) (f i) h0m him p0 p m0 m E h0r hir
+    have : o0 = f 0 := issued_inj _ (etags_never_reused t e0 evs hok hw) o0 (f 0) h0 h0m E a1 h0n a2
+      (by rw [h0r]; rfl)
+    subst this
+    rw [hir, hin] at *
+    exact a8
+  have hfm : ∀ (l : List Nat) (g h : Nat → Bytes), (∀ i ∈ l, g i = h i) → l.flatMap g = l.flatMap h := by
+    intro l g h hgh
+    induction l with
+    | nil => rfl
+    | cons a l ih =>
+      rw [List.flatMap_cons, List.flatMap_cons, hgh a (by simp), ih (fun i hi => hgh i (List.mem_cons_of_mem _ hi))]
+  rw [hfm _ _ _ hcong, hnb]
+  obtain ⟨body, _, hb, hr⟩ := get_reassembles (f 0).table (f 0).req.opts (hok _ h0m).2 (2 ^ ((f 0).req.szx + 4))
+    (Nat.pow_pos (by omega))
+  subst hb
+  exact hr
+
+/-- a run of 7 events with a table change and a timeout in the middle of a transfer: `</aaaaaaaaaaaaaaaaaa>` (21 bytes, two
+blocks of 16); block 0 (ETag 1), `</b>` added, block 1 still comes from the OLD listing under ETag 1; a restart gets the
+NEW listing under ETag 2; after the timeout block 1 is served from the current table without ETag.  The hypotheses of the
+theorems above hold for it. -/
+example :
+    let r : Resource := ⟨List.replicate 18 0x61, [], false, false⟩
+    let evs : List BEv := [.get ⟨0, 0, 0, [], none⟩, .op (.reg ⟨[0x62], [], false, false⟩), .get ⟨0, 1, 0, [], none⟩,
+      .get ⟨0, 0, 0, [], none⟩, .expire 0 [], .get ⟨0, 1, 0, [], none⟩]
+    let tr := runB (BState.init [r] 0) evs
+    tr.map (·.resp) =
+      [RespB.blk ((listing [r] []).take 16) true (some 1), RespB.blk ((listing [r] []).drop 16) false (some 1),
+       RespB.blk ((listing [r, ⟨[0x62], [], false, false⟩] []).take 16) true (some 2),
+       RespB.blk ((listing [r, ⟨[0x62], [], false, false⟩] []).drop 16) false none] ∧
+    (∀ o ∈ tr, C16.Small o.req.opts) ∧ 0 + evs.length < 2 ^ 64 := by
+  decide
 
 end Coap.C20
